@@ -15,10 +15,11 @@
 (*                               node itself is among the siblings tested) *)
 (*                       "rel"   reference under inside/has/follows/       *)
 (*                               precedes (another node)                   *)
-(*   consKeys, consVars : keys of `constraints`, variables they bind       *)
+(*   consKeys, consVars, consRefs : keys of `constraints`, variables they  *)
+(*                bind, utilities they refer to                            *)
 (*   trans      : key :> [src |-> variable, rewriters |-> set of ids]      *)
 (*   fixVars, fixForm : variables of the fix template, "string"|"object"   *)
-(*   rewriters  : id :> [hasFix |-> BOOLEAN]                               *)
+(*   rewriters  : id :> [hasFix |-> BOOLEAN, refs |-> set of [to, edge]]   *)
 (*   hasKinds   : `rule` has potential kinds                               *)
 (*                                                                         *)
 (* P: Accept    - the statement of C12                                     *)
@@ -27,7 +28,8 @@
 EXTENDS Naturals, Sequences, FiniteSets, TLC
 
 UtilIds(d) == DOMAIN d.utils
-AllRefs(d) == d.mainRefs \cup UNION { d.utils[u].refs : u \in UtilIds(d) }
+AllRefs(d) == d.mainRefs \cup UNION { d.utils[u].refs : u \in UtilIds(d) } \cup d.consRefs
+              \cup UNION { d.rewriters[r].refs : r \in DOMAIN d.rewriters }
 
 \* ---------------------------------------------------------------- P ------
 Defined(d) == d.mainVars \cup UNION { d.utils[u].vars : u \in UtilIds(d) } \cup d.consVars
